@@ -110,19 +110,19 @@ def anydec_unfold(encs, b, i):
             z3.Implies(z3.And(i >= 0, i < z3.Length(encs)), f(encs, b, i + 1) == z3.Or(f(encs, b, i), FS.decodable(S_at(encs, i), b)))]
 
 
-def exception_slot():
-    """the local `exception`: None, or the UnicodeDecodeError of the previous encodings"""
+def exception_slot(local="exception"):
+    """the one local the loop carries (`exception` on the pinned tree): None, or the UnicodeDecodeError of the previous encodings"""
     def g(ex, fr):
-        return SV(z3.BoolVal(fr.locals["exception"] is not None), BOOL)
+        return SV(z3.BoolVal(fr.locals[local] is not None), BOOL)
 
     def s(ex, fr, v):
         if ex.branch(v.t, "has-exception"):
-            fr.locals["exception"] = ExcVal(UnicodeDecodeError, ("earlier encodings",))
+            fr.locals[local] = ExcVal(UnicodeDecodeError, ("earlier encodings",))
         else:
-            fr.locals["exception"] = None
+            fr.locals[local] = None
 
     sl = Slot("exception", BOOL, g, s)
-    sl.local = "exception"
+    sl.local = local
     return sl
 
 
@@ -165,7 +165,9 @@ class OpenDetect(Unit):
             return anydec_unfold(et, b, i)
 
         if self.entry == "list":
-            ex.loop_specs[(self.LQ, 0)] = LoopSpec([exception_slot()], inv, using)
+            from pyvc.execu import loop_carried
+            carried = loop_carried(ex.repo.func(self.LQ), 0)      # by role, not by name
+            ex.loop_specs[(self.LQ, 0)] = LoopSpec([exception_slot(carried[0] if len(carried) == 1 else "exception")], inv, using)
         kind, r = ex.run_function(fn, args, kw)
         ex.prove("post:filesystem-untouched", FS.fs_of(ex) == fs0, "opening never writes")
         n = z3.Length(et)
